@@ -124,15 +124,38 @@ def random_lists(rng, n, tid0):
                 v = (base ^ (rng.getrandbits(4) << (32 - ln) if ln <= 28 else rng.getrandbits(2)))
                 bits = [b if i < ln else 0 for i, b in enumerate(lex.int_bits(v & 0xFFFFFFFF))]
                 nets.append((bits, ln))
+        origin = "random"
+        if rng.random() < 0.12:       # cascade: every piece of one block two or three levels down, in any order, plus a few of the
+            ln = rng.randint(0, 28)   # intermediate blocks that the pieces will rebuild (the work list meets them again)
+            top = [b if i < ln else 0 for i, b in enumerate(lex.int_bits(base))]
+            depth = rng.choice([2, 2, 3])
+            nets = []
+            for v in range(2 ** depth):
+                bits = list(top)
+                for j in range(depth):
+                    bits[ln + j] = (v >> (depth - 1 - j)) & 1
+                nets.append((bits, ln + depth))
+            rng.shuffle(nets)
+            for _k in range(rng.randint(0, 2)):
+                lv = rng.randint(1, depth - 1)
+                bits = list(top)
+                for j in range(lv):
+                    bits[ln + j] = rng.randint(0, 1)
+                nets.insert(rng.randint(0, len(nets)), (bits, ln + lv))
+            if rng.random() < 0.3:
+                nets.pop(rng.randrange(len(nets)))
+            origin = "cascade"
         texts = [spell(rng, pfx_wild(b, ln), cls, plat) for b, ln in nets]
         if any(x is None for x in texts):
             continue
-        job = dict(tid=t, cls=cls, plat=plat, texts=texts, note=rng.choice(["", "x"]), origin="random")
+        job = dict(tid=t, cls=cls, plat=plat, texts=texts, note=rng.choice(["", "x"]), origin=origin)
         r = rng.random()
         if r < 0.06:
             job["foreign"], job["fpos"], job["origin"] = rng.choice(["str", "other"]), rng.randint(0, 9), "foreign"
         elif r < 0.14 and not (cls == "AddressAg" and plat == "ios"):
             texts.insert(rng.randint(0, len(texts)), rng.choice(["10.0.0.0 0.0.1.3", "10.1.2.0 0.255.0.255", "1.0.0.1 0.0.0.254"]))
+            if rng.random() < 0.3:
+                texts.insert(0, "any" if cls == "Address" else "0.0.0.0/0")      # everything is covered already - the wildcard is still refused
             job["origin"] = "non-contiguous"
         jobs.append(job)
         t += 1
